@@ -245,5 +245,5 @@ def k_jobs(tier):
 def main(tier):
     js = jobs(common.level("C10", tier))
     if common.level("C10", tier) == "deep":
-        js = common.widen(js, by=(1,))
+        js = common.widen(js, by=(1, 2))
     return common.run_space_check("C10", tier, js, RULE, ASSUME, budget_s=110 if tier == "quick" else 1500)
